@@ -166,7 +166,7 @@ static void enumDfs(DTDValidator* val, DTDElementDecl& decl, unsigned nsyms, uns
 
 // ------------------------------------------------------------------------------------------------
 // document tier
-//   M  <hex document> <hex external subset | ->     all 16 modes: {dom,sax} x {ig,dg} x {ns0,ns1} x {v1,v0}
+//   M  <hex document> <hex external subset | -> {<sysid suffix>=<hex>}    all 16 modes: {dom,sax} x {ig,dg} x {ns0,ns1} x {v1,v0}
 //   MV <hex document> <hex external subset | ->     same, with the first messages of every mode (replay)
 //   -> "<mode> v=<#error()> f=<#fatalError()> exc=<name|-> dump=<elements> ## <mode> ..."
 //   dump: per element in document order  <name,attr=value[!]...|n>   (! = supplied by default, DOM only;
@@ -183,9 +183,16 @@ struct Counter : public ErrorHandler {
 
 struct MemResolver : public EntityResolver {
     const std::vector<XMLByte>* ext = 0;
+    const std::vector<std::pair<std::string, std::vector<XMLByte> > >* extra = 0;   // external parameter entities "<name>"
     int asked = 0;
     InputSource* resolveEntity(const XMLCh* const, const XMLCh* const systemId) override {
         std::string sid = hx::narrow(systemId);
+        static const XMLByte nothing[1] = { 0 };
+        if (extra) for (auto& kv : *extra) {
+            const std::string& n = kv.first;
+            if (sid.size() >= n.size() && sid.compare(sid.size() - n.size(), n.size(), n) == 0)
+                return new MemBufInputSource(kv.second.empty() ? nothing : kv.second.data(), kv.second.size(), systemId, false);
+        }
         if (ext && sid.size() >= 7 && sid.compare(sid.size() - 7, 7, "ext.dtd") == 0) {
             asked++;
             static const XMLByte none[1] = { 0 };
@@ -267,9 +274,11 @@ struct ParserSet {
 };
 static ParserSet* gParsers = 0;
 
+static const std::vector<std::pair<std::string, std::vector<XMLByte> > >* gExtra = 0;
+
 static std::string runMode(const std::vector<XMLByte>& doc, const std::vector<XMLByte>* ext, bool sax, bool dg, bool ns, bool validate, bool verbose) {
     Counter c;
-    MemResolver res; res.ext = ext;
+    MemResolver res; res.ext = ext; res.extra = gExtra;
     std::string exc = "-", dump;
     try {
         MemBufInputSource src(doc.data(), doc.size(), "doc", false);
@@ -309,7 +318,9 @@ static std::string runMode(const std::vector<XMLByte>& doc, const std::vector<XM
     return out;
 }
 
-static std::string runAllModes(const std::vector<uint32_t>& d, const std::string& extHex, bool verbose) {
+static std::string runAllModes(const std::vector<uint32_t>& d, const std::string& extHex, bool verbose,
+                               const std::vector<std::pair<std::string, std::vector<XMLByte> > >& extra) {
+    gExtra = &extra;
     if (!gParsers) gParsers = new ParserSet();
     std::vector<XMLByte> doc(d.begin(), d.end());
     std::vector<XMLByte> ext;
@@ -355,8 +366,16 @@ int main() {
                     enumDfs(val, decl, nsyms, maxlen, pre, out);
                     puts((route + " " + out).c_str());
                 }
-            } else if ((f[0] == "M" || f[0] == "MV") && f.size() == 3) {
-                puts(runAllModes(hx::parseHexList(f[1]), f[2], f[0] == "MV").c_str());
+            } else if ((f[0] == "M" || f[0] == "MV") && f.size() >= 3) {
+                // further fields: <system id suffix>=<hex>  (external parameter entities served from memory)
+                std::vector<std::pair<std::string, std::vector<XMLByte> > > extra;
+                for (size_t k = 3; k < f.size(); k++) {
+                    size_t eq = f[k].find('=');
+                    if (eq == std::string::npos) continue;
+                    auto b = hx::parseHexList(f[k].substr(eq + 1) == "0" ? "-" : f[k].substr(eq + 1));
+                    extra.push_back(std::make_pair(f[k].substr(0, eq), std::vector<XMLByte>(b.begin(), b.end())));
+                }
+                puts(runAllModes(hx::parseHexList(f[1]), f[2], f[0] == "MV", extra).c_str());
             } else puts("bad-op");
             fflush(stdout);
         }
